@@ -74,6 +74,64 @@ def Mon.run : Mon → List Ev → Option Mon
 /-- The property on a whole history. -/
 def chainOk (es : List Ev) : Bool := (Mon.run {} es).isSome
 
+/-! ### The same monitor for what ARRIVES at the broker side
+
+`Mon` speaks about the order in which the client WRITES batches. The wire view of a scenario records what reached
+the broker side: a request written on a connection that died before it was read is missing there, so a later batch
+can arrive before an earlier one arrives for the first time (batches 45+5, 50+18, 68+5 written in that order on a
+connection that is cut after the first: the client re-sends from 45, but a request carrying 68+5 that was already
+on its way arrives first and is answered OUT_OF_ORDER_SEQUENCE_NUMBER). The numbering is what the property is
+about, not the arrival order: `LMon` keeps such a batch aside (`ahead`) until the chain reaches it, still refuses two
+different batches with one first sequence, and `LMon.done` requires that nothing is left aside at the end. On
+histories `Mon` accepts it behaves exactly like `Mon` (`Props.C29.lmon_generalises`). -/
+
+structure LMon where
+  started : Bool := false
+  epoch : Int := 0
+  nextSeq : Int := 0
+  chain : List (Int × Int) := []
+  allow : Bool := false
+  /-- batches that arrived before the chain reached their first sequence -/
+  ahead : List (Int × Int) := []
+deriving Repr, DecidableEq
+
+/-- move batches from `ahead` into the chain while one of them starts at the frontier -/
+def LMon.absorb : Nat → LMon → LMon
+  | 0, m => m
+  | fuel + 1, m =>
+    match m.ahead.find? (fun p => p.1 == m.nextSeq) with
+    | none => m
+    | some p => LMon.absorb fuel { m with nextSeq := next p.1 p.2, chain := p :: m.chain, ahead := m.ahead.filter (· != p) }
+
+def LMon.step (m : LMon) : Ev → Option LMon
+  | .reset => some { m with allow := true }
+  | .batch e f n =>
+    if f < 0 || f ≥ seqMod || n < 1 || n ≥ seqMod then none
+    else if !m.started then
+      some { started := true, epoch := e, nextSeq := next f n, chain := [(f, n)], allow := false, ahead := [] }
+    else if e == m.epoch then
+      if f == m.nextSeq then
+        let m' := { m with nextSeq := next f n, chain := (f, n) :: m.chain }
+        some (LMon.absorb m'.ahead.length m')
+      else if m.chain.contains (f, n) || m.ahead.contains (f, n) then some m
+      else if (m.chain ++ m.ahead).any (fun p => p.1 == f) then none     -- two different batches with one first sequence
+      else some { m with ahead := (f, n) :: m.ahead }
+    else if m.allow && f == 0 then
+      some { started := true, epoch := e, nextSeq := next 0 n, chain := [(0, n)], allow := false, ahead := [] }
+    else none
+
+def LMon.run : LMon → List Ev → Option LMon
+  | m, [] => some m
+  | m, e :: es => match m.step e with
+    | none => none
+    | some m' => m'.run es
+
+/-- at the end of a history in which everything was delivered nothing is left aside -/
+def LMon.done (m : LMon) : Bool := m.ahead.isEmpty
+
+def LMon.ofMon (m : Mon) : LMon :=
+  { started := m.started, epoch := m.epoch, nextSeq := m.nextSeq, chain := m.chain, allow := m.allow, ahead := [] }
+
 /-! ### The client model -/
 
 /-- The sequence-relevant fields of `recBuf`. A batch is represented by its record count
